@@ -402,7 +402,7 @@ def run(spec, ctx):
             rng = random.Random(f"{base}/s/{idx}")
             t, rank = placed(T, pl)
             acts, t_last = disturbance(kind, t, rank, rng, cfg)
-            run_script(ctx, cfg, acts, t_last, f"{base}/s/{idx}", dict(kind="single", idx=idx, shard=spec["shard"], seed=spec["seed"]),
+            run_script(ctx, cfg, acts, t_last, f"{base}/s/{idx}", dict(kind="single", idx=idx, shard=spec["shard"], seed=spec["seed"], watchers=spec["watchers"]),
                        [(kind, j, pl)], spec["watchers"])
             ctx.count("single_disturbance_enumerated")
             count_kinds(ctx, [kind], [pl])
